@@ -488,7 +488,10 @@ def run_spectrogram(case):
         return out
     window_s, hop_s = float(w / rate), float(h / rate)
     before = axis_snapshot(a)
-    st, r = call(audio.compute_spectrogram, a, window_s, hop_s)
+    if case.get("boundary") == "none":
+        st, r = call(audio.compute_spectrogram, a, window_s, hop_s, boundary=None)
+    else:
+        st, r = call(audio.compute_spectrogram, a, window_s, hop_s)
     source_axis_check(out, fn, a, before)
     hk = "frac" if h.denominator != 1 else "whole"
     wk = "frac" if w.denominator != 1 else "whole"
@@ -503,8 +506,14 @@ def run_spectrogram(case):
     src0 = float(a.coords["time"].data[0])
     tcoords = [float(v) for v in r.coords["time"].data]
     kind = "step_attr_vs_realised_hop" if h.denominator != 1 else "whole_hop_not_realised"
-    axis_oracles(out, fn, "time", tcoords, step_of(r, "time"), r.shape[r.get_axis_num("time")], near(src0), src0,
-                 {"fn": fn, "axis": "time", "kind": kind})
+    start_ok, start_exp = near(src0), src0
+    if case.get("boundary") == "none":
+        # without boundary extension the first frame is centred half a window into the source: the statement 'starts at the source's
+        # start' is read as 'within one window after the source's start' for this non-default option
+        start_ok = lambda c0, step: src0 - TOL * step <= c0 <= src0 + window_s + TOL * step  # noqa: E731
+        start_exp = [src0, src0 + window_s]
+    axis_oracles(out, fn, "time", tcoords, step_of(r, "time"), r.shape[r.get_axis_num("time")], start_ok, start_exp,
+                 {"fn": fn, "axis": "time", "kind": kind if case.get("boundary") != "none" else "boundary_none"})
     fcoords = [float(v) for v in r.coords["frequency"].data]
     axis_oracles(out, fn, "frequency", fcoords, step_of(r, "frequency"), r.shape[r.get_axis_num("frequency")], near(0.0), 0.0,
                  {"fn": fn, "axis": "frequency", "kind": "step"})
@@ -672,6 +681,9 @@ def cases_of(block):
                                                     c["spec_windows"], c["spec_hops"]):
             if F(h) <= F(w):
                 yield {"space": "spectrogram", "rate": block["rate"], "n": n, "ch": ch, "first": first, "window": w, "hop": h}
+                if ch == 1:
+                    yield {"space": "spectrogram", "rate": block["rate"], "n": n, "ch": ch, "first": first, "window": w, "hop": h,
+                           "boundary": "none"}
     else:
         raise ValueError(sp)
 
